@@ -10,7 +10,18 @@ from fractions import Fraction
 
 from mc.engine import Result, System, Violation
 
-from probables import BloomFilter, CountingBloomFilter, CountingCuckooFilter, CountMinSketch, CuckooFilter, ExpandingBloomFilter
+from probables import (
+    BloomFilter,
+    CountingBloomFilter,
+    CountingCuckooFilter,
+    CountMeanMinSketch,
+    CountMeanSketch,
+    CountMinSketch,
+    CuckooFilter,
+    ExpandingBloomFilter,
+    HeavyHitters,
+    StreamThreshold,
+)
 from probables.exceptions import InitializationError
 
 getcontext().prec = 60
@@ -193,6 +204,11 @@ class GeomSystem(System):
                         bad("geom.cms_width_honours_error_rate", {**where, "2/width": float(Fraction(2, w))})
                     if (1 - Fraction(1, 2**d)) * TOL < Fraction(conf):
                         bad("geom.cms_depth_honours_confidence", {**where, "1-2^-depth": float(1 - Fraction(1, 2**d))})
+                    if (evals % 97 == 0 or len(checked_w) < 40) and w * d <= 65536:
+                        for sub in (CountMeanSketch, CountMeanMinSketch, HeavyHitters, StreamThreshold):
+                            t = sub(confidence=conf, error_rate=err)
+                            if (t.width, t.depth) != (w, d):
+                                bad("geom.cms_subclass_same_geometry", {**where, "cls": sub.__name__, "obs": [t.width, t.depth]})
                     if w * d <= 4096:
                         s2 = CountMinSketch.frombytes(bytes(s))
                         if (s2.width, s2.depth) != (w, d):
@@ -202,6 +218,12 @@ class GeomSystem(System):
                             bad("geom.cms_deterministic", where)
             res.samples = [{"confidence": confs[3], "error_rate": errs[3]}]
         else:
+            import os
+            import shutil
+            import tempfile
+
+            tmpdir = tempfile.mkdtemp(prefix="vgc")
+            seen_files = set()
             ers = set()
             for k in range(1, 31):
                 for base in (2.0**-k, 3 * 2.0**-(k + 2), 5 * 2.0**-(k + 3), 7 * 2.0**-(k + 3), 2.0**-k / 3, 2.0**-k / 5):
@@ -225,10 +247,19 @@ class GeomSystem(System):
                             bad("geom.cuckoo_reports_request", {**where, "obs": f.error_rate})
                         g = cls.frombytes(bytes(f), error_rate=er)
                         if g.fingerprint_size_bits != bits or g.bucket_size != b or g.capacity != 4:
-                            bad("geom.cuckoo_stable_across_reload", {**where, "loaded_bits": g.fingerprint_size_bits})
+                            bad("geom.cuckoo_stable_across_reload", {**where, "channel": "frombytes", "loaded_bits": g.fingerprint_size_bits})
+                        if tmpdir is not None and (b, round(math.log2(er))) not in seen_files:
+                            # the file loader with the rate re-supplied (one per bucket size and rate magnitude)
+                            seen_files.add((b, round(math.log2(er))))
+                            path = os.path.join(tmpdir, "c.cko")
+                            f.export(path)
+                            g2 = cls.load_error_rate(er, path)
+                            if g2.fingerprint_size_bits != bits or g2.bucket_size != b or g2.capacity != 4:
+                                bad("geom.cuckoo_stable_across_reload", {**where, "channel": "load_error_rate", "loaded_bits": g2.fingerprint_size_bits})
                         h = cls.init_error_rate(er, capacity=4, bucket_size=b, max_swaps=5)
                         if h.fingerprint_size_bits != bits:
                             bad("geom.cuckoo_deterministic", where)
+            shutil.rmtree(tmpdir, ignore_errors=True)
             res.samples = [{"bucket_size": 4, "error_rate": 0.01}]
         res.states = len(distinct)
         res.nontrivial_states = len(distinct)
